@@ -2,13 +2,11 @@
 # usage: tools/try_seed.sh <patch.diff> <ID> [tier]   — apply a seeded change to /repo, run the check, undo
 P="$1"; ID="$2"; T="${3:-quick}"
 cd /repo || exit 9
-if ! git apply --check "$P" 2>/dev/null; then
-  if ! git apply --3way --check "$P" 2>/dev/null; then echo "PATCH-DOES-NOT-APPLY $P"; exit 8; fi
-  git apply --3way "$P" >/dev/null 2>&1
-else
-  git apply "$P"
-fi
+if [ -n "$(git status --porcelain)" ]; then echo "REPO-DIRTY: refusing to apply a seed"; exit 7; fi
+if git apply --check "$P" 2>/dev/null; then git apply "$P"
+elif git apply --3way "$P" >/dev/null 2>&1 && [ -z "$(git diff --name-only --diff-filter=U)" ]; then :
+else git reset -q --hard HEAD; echo "PATCH-DOES-NOT-APPLY $P"; exit 8; fi
 cd /verif && ./check "$ID" "$T"; rc=$?
-cd /repo && git checkout -- . && git reset -q 2>/dev/null
+cd /repo && git reset -q --hard HEAD
 echo "seed=$P property=$ID rc=$rc"
 exit $rc
